@@ -865,8 +865,10 @@ func checkPagePlumbing(w *core.World, r *core.Report, unit *groupingUnit, rule s
 	// page back to early rows
 	{
 		var rf []*ssa.Function
+		seen, _ := w.Reachable([]*ssa.Function{w.Func("vm", "(*Vm).Run"), w.Func("vm", "(*Vm).Render")})
 		for _, fn := range w.FuncsIn("render") {
-			if len(fn.Blocks) > 0 {
+			// the renderer as the VM uses it (leftover, unreferenced helpers are not part of any page)
+			if len(fn.Blocks) > 0 && seen[fn] {
 				rf = append(rf, fn)
 			}
 		}
@@ -877,16 +879,16 @@ func checkPagePlumbing(w *core.World, r *core.Report, unit *groupingUnit, rule s
 		moveOp, _ := constOf(w, r, "vm", "MOVE")
 		var region []*ssa.BasicBlock
 		for _, in := range allInstrs(vr) {
-			ta, ok := in.(*ssa.TypeAssert)
-			if !ok || !ta.CommaOk || !strings.HasSuffix(core.TypeName(ta.AssertedType), "render.BrowseError") {
-				continue
+			for _, e := range browseErrorEdgesOf(in) {
+				region = append(region, dominatedRegion(e.To())...)
 			}
-			if refs := ta.Referrers(); refs != nil {
-				for _, u := range *refs {
-					if ex, ok := u.(*ssa.Extract); ok && ex.Index == 1 {
-						for _, e := range core.EdgesWhere(ex, true) {
-							region = append(region, dominatedRegion(e.To())...)
-						}
+		}
+		// the recovery may have moved into a helper of the VM that is called in the branch
+		for _, b := range append([]*ssa.BasicBlock{}, region...) {
+			for _, in := range b.Instrs {
+				if c, ok := in.(ssa.CallInstruction); ok {
+					if g := core.StaticCallee(c); g != nil && core.PkgOf(g) == "vm" && g != vr && g.Signature.Recv() != nil && len(core.CallsTo(g, "vm.(*Vm).Run")) > 0 && g.Name() != "Run" && g.Name() != "Reset" {
+						region = append(region, g.Blocks...)
 					}
 				}
 			}
